@@ -33,7 +33,16 @@ impl Scratch {
     /// The cache directory spelled differently (same directory): trailing slash, through a
     /// symlink, with dot segments, under a non-ASCII name. `sel` picks the spelling.
     pub fn cache_alias(&self, sel: u64) -> PathBuf {
-        match sel % 6 {
+        match sel % 7 {
+            5 => {
+                // a path that is not valid UTF-8
+                use std::os::unix::ffi::OsStrExt;
+                let link = self.root.join(std::ffi::OsStr::from_bytes(b"cache-\xff\xfe-link"));
+                if std::fs::symlink_metadata(&link).is_err() {
+                    let _ = std::os::unix::fs::symlink(&self.cache, &link);
+                }
+                link
+            }
             1 => PathBuf::from(format!("{}/", self.cache.display())),
             2 => {
                 let link = self.root.join("link-to-cache");
